@@ -22,7 +22,14 @@ theorem wrapInt_big {v : Int} (h1 : 9223372036854775808 ≤ v) (h2 : v ≤ 18446
     wrapInt v = v - 18446744073709551616 := by
   unfold wrapInt; omega
 
-theorem indexToInt_typed (a : Arg) (h : a.kind ≠ .untyped) : indexToInt a = some (wrapInt a.val) := by
+theorem indexToInt_typed (ck : Bool) (a : Arg) (h : a.kind ≠ .untyped) (hv : a.const = false) :
+    indexToInt ck a = some (wrapInt a.val) := by
+  unfold indexToInt
+  cases hk : a.kind <;> simp_all
+
+/-- a typed constant under the representability check: its own value, or a compile error -/
+theorem indexToInt_const (a : Arg) (h : a.kind ≠ .untyped) (hc : a.const = true) :
+    indexToInt true a = if minInt ≤ a.val ∧ a.val ≤ maxInt then some a.val else none := by
   unfold indexToInt
   cases hk : a.kind <;> simp_all
 
